@@ -259,7 +259,7 @@ fn main() {
          (fresh; full screen + 100 lines scrollback + margins; one printed char; cursor in the last row of a 90-line scrollback), ANSI emulation 80x25, followed by a printable, CR LF, CUU, CUF and a printable. \
          big_pairs (exhaustive): 54 state-setting sequences carrying 2^16 / 2^31-49 / 2^31-1 (margins, scroll regions, origin mode, far tab stop, far cursor, saved cursor, font selection) x {fresh, 90-line scrollback} x \
          63 finals x 8 intermediates x parameter {none, 1, 25, 2^31-1}, then the same tail plus restore-cursor. \
-         exhaustive_3_tokens: every sequence of 1..=3 tokens of the ~90-token control-function alphabet (the one C09 enumerates) on 80x25 and 2x2, ANSI emulation. \
+         exhaustive_3_tokens: every sequence of 1..=3 tokens of the ~90-token control-function alphabet (the one C09 enumerates) on 80x25 and 2x2, each on a fresh screen and after two lines of text, ANSI emulation. \
          Non-trivial: the stream contains >= 2 control lead-in bytes of its emulation AND touched the screen (row allocated, cursor moved or height grew); distinct by hash of (emulation,size,shape,bytes).",
     );
     eng.assume("built with overflow checks and debug assertions ON at opt-level 2 (profile `checked`): panics that only a debug build of a front end would hit count as well");
@@ -281,8 +281,11 @@ fn main() {
     let per = n + n * n + n * n * n;
     eng.enumerated_with_class(
         PartCfg::new("exhaustive_3_tokens", 0, 0).isolated().timeout_ms(20_000).heapcap_is_violation(false).exhaustive(true),
-        per * sizes.len() as u64,
+        per * sizes.len() as u64 * 2,
         move |idx| {
+            // second half: the same sequences on a screen that already holds two lines of text (cursor in row 2, rows allocated)
+            let with_text = idx >= per * sizes.len() as u64;
+            let idx = idx % (per * sizes.len() as u64);
             let (w, h) = sizes[(idx / per) as usize];
             let k = idx % per;
             let toks: Vec<stream::Tok> = if k < n {
@@ -294,7 +297,9 @@ fn main() {
                 let k = k - n - n * n;
                 vec![alpha[(k / (n * n)) as usize].clone(), alpha[((k / n) % n) as usize].clone(), alpha[(k % n) as usize].clone()]
             };
-            Case { emu: 0, w, h, shape: (k % 3) as u8, data: Bytes(stream::render(&toks, w as i32, h as i32, 9999)) }
+            let mut data = if with_text { b"some text\r\nmore text\r\n".to_vec() } else { Vec::new() };
+            data.extend(stream::render(&toks, w as i32, h as i32, 9999));
+            Case { emu: 0, w, h, shape: (k % 3) as u8, data: Bytes(data) }
         },
         check,
         classify,
